@@ -208,7 +208,9 @@ CLAIMED = {
             'threaded shards; run_pipeline_interleaved is run with in-process stages and with a worker pool on the last stage fed '
             'by a master server through a RemoteIteratorQueue (buffer sizes, aggregate_only). Outputs (multiset), the aggregate and '
             'the number of final AggregateResults (exactly one) are compared with the same pipeline in one process; '
-            'merge_states(states[:j], strict_states_cnt=n) must raise ValueError for every j < n on both runner kinds.',
+            'merge_states(states[:j], strict_states_cnt=n) must raise ValueError for every j < n on both runner kinds (one or two '
+            'aggregating stages, list or stream). A generated polling perturbation lets the pool\'s output queue linger after an '
+            'empty() that returned True, which opens the window between "queue empty" and "all tasks done".',
             'in-process fake transport (models courier\'s observable contract, not gRPC); real OS threads/asyncio with a 90 s '
             'watchdog and reruns before reporting; exact aggregates.',
             '§2.3, §2.4, §3 C16'),
@@ -217,7 +219,8 @@ CLAIMED = {
             'as_completed (1..8 tasks) and sharded_pipelines_as_iterator (generated pipelines, 1..3 prefetching workers, 1..6 shards, '
             'batch/prefetch sizes) run on real servers and pools while the transport applies a generated fault plan to the i-th call '
             'of each method on every worker but one: deadline exceeded before or after the handler ran, abrupt death, graceful '
-            'death, restart as a fresh process (generator and object cache lost). Oracles: each task result exactly once; every '
+            'death, restart as a fresh process (generator and object cache lost), presumed dead (reply parked, worker unregistered, '
+            'reply delivered after a generated delay or at the very moment the caller gives the worker up). Oracles: each task result exactly once; every '
             'output batch at least once and nothing invented; exactly one final AggregateResult equal to the fault-free in-process '
             'aggregate (every shard state merged exactly once); application errors surface as errors; an exhausted retry budget '
             'raises TimeoutError; no worker stays acquired; a watchdog catches hangs.',
